@@ -3,9 +3,9 @@
 set -e
 cd "$(dirname "$0")"
 export GOFLAGS=-mod=mod GOPROXY=off GOSUMDB=off GOTOOLCHAIN=local
-mkdir -p build evidence replays
+mkdir -p build evidence replays coq/gen
 python3 lib/gen_all.py
-cd coq && coq_makefile -f _CoqProject -o Makefile && timeout 3000 make -j16 && cd ..
+(cd coq && coq_makefile -f _CoqProject -o Makefile && timeout 3000 make -j16)
 cp /repo/go.sum harness/go.sum
 (cd harness && go build -tags verif -o ../build/vharness . && go build -o ../build/srcpin ./cmd/srcpin)
 echo setup ok
